@@ -424,23 +424,25 @@ def run(db: DB, rep: Report) -> None:
 
     # ---- D4 --------------------------------------------------------------------
     rep.rule("D4", "one activity per update", 2)
-    ok = False
+    ok = True
     d4_found = False
+    _compound = (ast.If, ast.For, ast.While, ast.With, ast.Try, ast.FunctionDef)
     for g_ in tn.cls.methods.values():
-        for n in walk_no_nested(g_.node):
-            # the block that adds make_update(): an arm of the dispatch or a helper's body
-            blk = None
-            if isinstance(n, ast.If) and any("make_update()" in norm(s) for s in n.body):
-                blk = n.body
-            elif n is g_.node and any("make_update()" in norm(s) for s in g_.node.body):
-                blk = g_.node.body
-            if blk is None:
-                continue
-            d4_found = True
-            names = [norm(s) for s in blk]
-            iu = [i for i, s in enumerate(names) if "make_update()" in s]
-            ib = [i for i, s in enumerate(names) if "graphics.make_body()" in s]
-            ok = len(iu) == 1 and len(ib) == 1 and ib[0] == iu[0] + 1
+        for n in [g_.node] + list(walk_no_nested(g_.node)):
+            # the innermost block that adds make_update() as a simple statement: an arm of the
+            # dispatch or a helper's body (also when the helper has been inlined into the arm)
+            for fld in ("body", "orelse", "finalbody"):
+                blk = getattr(n, fld, None)
+                if not isinstance(blk, list):
+                    continue
+                if not any(not isinstance(s, _compound) and "make_update()" in norm(s) for s in blk):
+                    continue
+                d4_found = True
+                names = [norm(s) for s in blk]
+                iu = [i for i, s in enumerate(names) if "make_update()" in s]
+                ib = [i for i, s in enumerate(names) if "graphics.make_body()" in s]
+                ok = ok and len(iu) == 1 and len(ib) == 1 and ib[0] == iu[0] + 1
+    ok = ok and d4_found
     rep.check("D4", ok, db.loc(tn.node), tn.short, "update-then-activity",
               "the update arm adds make_update() and then graphics.make_body(), once each",
               "the arm of __trans_nodes that emits the update does not emit exactly one "
